@@ -66,7 +66,7 @@ class Conv:
 
     def __init__(self, S, env=None, field_div=None):
         self.S = S
-        self.env = env or {}
+        self.env = env or getattr(S, 'path_env', None) or {}
         self.memo = {}
         self.field_div = DEFAULT_FIELD_DIV if field_div is None else field_div
 
@@ -204,6 +204,7 @@ class Run:
         return r
 
     def ob(self, key, ok, rule='', expected=None, found=None, where=None, nontrivial=True, **extra):
+        key = key + getattr(self, 'key_suffix', '')
         d = {'key': key, 'ok': bool(ok), 'rule': rule}
         if expected is not None:
             d['expected'] = str(expected)[:2000]
@@ -438,11 +439,66 @@ def single_ret(run, S, name, allow_panics=False):
     if allow_panics == 'arith' and any(not (l['why'].startswith('Overflow') or l['why'] in ('DivisionByZero', 'RemainderByZero', 'OverflowNeg')) for g, l in pans):
         run.ob('%s:%s:panics' % (run.prop, name), False, rule='straight-line', expected='only arithmetic overflow / division-by-zero panics', found=sorted({l['why'] for g, l in pans}), where=r.get('span'))
         return None
+    if 1 < len(rets) <= 16 and not (pans and not allow_panics) and getattr(run, 'split_ok', False):
+        # the code special-cases some inputs: every path is checked on its own, under its own path condition
+        raise SplitRoot(name, r, rets)
     if len(rets) != 1 or (pans and not allow_panics):
         run.ob('%s:%s:shape' % (run.prop, name), False, rule='straight-line', expected='one Return leaf, no Panic',
                found='%d Return, %d Panic leaves' % (len(rets), len(pans)), where=r.get('span'))
         return None
     return r, rets[0][1]
+
+
+class SplitRoot(Exception):
+    def __init__(self, name, root, paths):
+        Exception.__init__(self, 'split ' + name)
+        self.name, self.root, self.paths = name, root, paths
+
+
+class _View:
+    """a Summaries object with one root replaced by a single path of it"""
+
+    def __init__(self, S, name, root, env):
+        self._S = S
+        self.roots = dict(S.roots)
+        self.roots[name] = root
+        self.path_env = env
+
+    def __getattr__(self, k):
+        return getattr(self._S, k)
+
+
+def run_custom(run, S, fn, name, spec, kw, depth=0):
+    """Run a rule that expects straight-line roots.  When a root forks (a fast path for special inputs), the rule is
+    applied to every path separately: exact equalities tested on the path become substitutions / rewrite hypotheses,
+    other guards give nothing, so each leaf must conform under exactly what its path guarantees."""
+    run.split_ok = depth < 3
+    try:
+        fn(run, S, name, spec, kw)
+    except SplitRoot as sp:
+        run.split_ok = False
+        for li, (guards, leaf) in enumerate(sp.paths):
+            env = dict(getattr(S, 'path_env', None) or {})
+            cv0 = Conv(S)
+            saved = dict(A.CTX.hyps)
+            old_suffix = getattr(run, 'key_suffix', '')
+            try:
+                for an, tid in _leaf_equalities(S, guards).items():
+                    e_ = cv0.el(tid)
+                    env[an] = e_
+                    atom = A.CTX.atom(an)
+                    if atom not in A.CTX.hyps and atom not in e_.atoms():
+                        A.CTX.hyps[atom] = (1, e_)
+                view = _View(S, sp.name, dict(sp.root, out=leaf), env)
+                run.key_suffix = old_suffix + ':path%d' % li
+                with path_hyps(S, guards):
+                    run_custom(run, view, fn, name, spec, kw, depth + 1)
+            finally:
+                run.key_suffix = old_suffix
+                A.CTX.hyps.clear()
+                A.CTX.hyps.update(saved)
+    finally:
+        run.split_ok = False
 
 
 def cmp_struct(run, S, name, got, exp, rule, where=None, tag='ret', hyp=None):
@@ -468,20 +524,23 @@ def cmp_struct(run, S, name, got, exp, rule, where=None, tag='ret', hyp=None):
     return allok
 
 
+def _path_eq_pairs(S, guards):
+    """(a, b) term-id pairs of the exact equalities that hold on a path"""
+    for kind, tid, want in guards:
+        t = S.terms[tid]
+        if kind == 'ite' and want is True and t[0] == 'a' and t[1] == 'eq' and len(t[2]) == 2:
+            yield t[2]
+        elif kind == 'ite' and want is False and t[0] == 'a' and t[1] == 'ne' and len(t[2]) == 2:
+            yield t[2]
+        elif kind == 'switch' and want == 1 and t[0] == 'a' and t[1] == 'cmp' and len(t[2]) == 2:
+            yield t[2]
+
+
 def _leaf_equalities(S, guards):
     """exact equalities that hold on a path: {input atom name: term id it equals}.  Lets a correct special-case
     branch (if x == c { shortcut }) be compared with the general formula under x := c."""
     eqs = {}
-    for kind, tid, want in guards:
-        t = S.terms[tid]
-        if kind == 'ite' and want is True and t[0] == 'a' and t[1] == 'eq' and len(t[2]) == 2:
-            a, b = t[2]
-        elif kind == 'ite' and want is False and t[0] == 'a' and t[1] == 'ne' and len(t[2]) == 2:
-            a, b = t[2]
-        elif kind == 'switch' and want == 1 and t[0] == 'a' and t[1] == 'cmp' and len(t[2]) == 2:
-            a, b = t[2]
-        else:
-            continue
+    for a, b in _path_eq_pairs(S, guards):
         if S.terms[a][0] == 'v' and S.terms[b][0] != 'v':
             eqs[S.terms[a][1]] = b
         elif S.terms[b][0] == 'v' and S.terms[a][0] != 'v':
@@ -489,6 +548,48 @@ def _leaf_equalities(S, guards):
         elif S.terms[a][0] == 'v' and S.terms[b][0] == 'v':
             eqs[S.terms[a][1]] = b
     return eqs
+
+
+class path_hyps:
+    """Polynomial equalities of a path (`if q.magnitude2() == 1 { shortcut }`) installed as rewrite hypotheses for the
+    duration of a comparison: P == Q with P - Q = c*v^k + rest (v in no other monomial) gives v^k -> -rest/c.
+    Only equalities the path really tests are used, so the leaf is compared exactly under its own path condition."""
+
+    def __init__(self, S, guards, field_div=None):
+        self.S, self.guards, self.field_div = S, guards, field_div
+        self.installed = []
+
+    def __enter__(self):
+        self.saved = dict(A.CTX.hyps)
+        cv = Conv(self.S, field_div=self.field_div)
+        K = A.CTX.kind
+        for a, b in _path_eq_pairs(self.S, self.guards):
+            if self.S.terms[a][0] == 'v' or self.S.terms[b][0] == 'v':
+                continue
+            try:
+                d = (cv.el(a) - cv.el(b)).norm()
+            except Exception:
+                continue
+            if d.zero() or d.has_defined():
+                continue
+            cands = []
+            for m, c in d.t.items():
+                if len(m) == 1 and m[0][1] >= 1 and K[m[0][0]][0] == 'base' and m[0][0] not in A.CTX.hyps:
+                    v = m[0][0]
+                    if all(m2 is m or all(v2 != v for v2, _ in m2) for m2 in d.t):
+                        cands.append((v, m, c))
+            if not cands:
+                continue
+            v, m, c = max(cands, key=lambda x: x[0])
+            rest = El({m2: c2 for m2, c2 in d.t.items() if m2 != m})
+            A.CTX.hyps[v] = (m[0][1], rest * El.c(Fr(-1) / c))
+            self.installed.append(v)
+        return self
+
+    def __exit__(self, *exc):
+        A.CTX.hyps.clear()
+        A.CTX.hyps.update(self.saved)
+        return False
 
 
 def _subst_struct(x, mapping):
@@ -536,15 +637,16 @@ def check_value(run, S, name, expected, rule='K3 ring conformance', post=None, a
             mapping[A.CTX.atom(an)] = e_
         cv = Conv(S, env=env, field_div=field_div) if env else cv0
         suffix = '' if len(rets) == 1 else ':path%d' % li
-        if expected is not None:
-            ok = cmp_struct(run, S, name + suffix, cv.val(leaf['v']), _subst_struct(expected, mapping), rule, where=r.get('span')) and ok
-        if post is not None:
-            for argname, exp in post.items():
-                if argname not in leaf['post']:
-                    run.ob('%s:%s:post:%s' % (run.prop, name + suffix, argname), False, rule=rule, expected='post-state of ' + argname, found='absent')
-                    ok = False
-                    continue
-                ok = cmp_struct(run, S, name + suffix, cv.val(leaf['post'][argname]), _subst_struct(exp, mapping), rule, where=r.get('span'), tag='post.' + argname) and ok
+        with path_hyps(S, guards if len(rets) > 1 else (), field_div=field_div):
+            if expected is not None:
+                ok = cmp_struct(run, S, name + suffix, cv.val(leaf['v']), _subst_struct(expected, mapping), rule, where=r.get('span')) and ok
+            if post is not None:
+                for argname, exp in post.items():
+                    if argname not in leaf['post']:
+                        run.ob('%s:%s:post:%s' % (run.prop, name + suffix, argname), False, rule=rule, expected='post-state of ' + argname, found='absent')
+                        ok = False
+                        continue
+                    ok = cmp_struct(run, S, name + suffix, cv.val(leaf['post'][argname]), _subst_struct(exp, mapping), rule, where=r.get('span'), tag='post.' + argname) and ok
     return ok
 
 
@@ -616,7 +718,7 @@ def _run_one(run, S, name, spec, kw, custom):
         elif kind == 'panic':
             all_panic(run, S, name)
         elif custom and kind in custom:
-            custom[kind](run, S, name, spec, kw)
+            run_custom(run, S, custom[kind], name, spec, kw)
         else:
             raise KeyError(kind)
 
